@@ -53,10 +53,8 @@ def generate(script):
         log(out[-2000:])
         raise ToolError('UciGen failed for %s' % script)
     trails = []
-    for line in out.split('\n'):
-        if line.startswith('<<"SCHED", "'):
-            js = line[len('<<"SCHED", "'):-3].replace('\\"', '"')
-            trails.append(json.loads(js))
+    for js in re.findall(r'<<\s*"SCHED",\s*"(.*?)"\s*>>', out, re.S):
+        trails.append(json.loads(js.replace('\\"', '"')))
     gen, dist = mc_stats(out)
     return trails, dist, gen
 
